@@ -136,7 +136,33 @@ def ring_rules(rng, R, V=("a", "b")):
     return rules
 
 
+def twocycle_rules(rng, R, V=("a", "b")):
+    """Two separate unary cycles (A <-> B and C <-> D, possibly through the start symbol) joined by a unary bridge,
+    with terminal exits: unary-cycle removal must keep the bridge."""
+    Ns = NT_NAMES[:5]
+    ws = weights_for(R)
+    if getattr(R, "__name__", "") not in ("Sat3", "Sat2", "Boolean", "BM2"):
+        ws = [w for w in ws if w < 1] or ws          # convergent cycles over the rationals
+    c1, c2 = rng.choice([(["S", "A"], ["B", "C"]), (["A", "B"], ["C", "D"]), (["A", "B"], ["S", "C"]), (["S"], ["A", "B"])])
+    V = list(V)
+    rules = []
+    for cyc in (c1, c2):
+        for x, y in zip(cyc, cyc[1:] + cyc[:1]):
+            rules.append((rng.choice(ws), x, (y,)))
+    rules.append((rng.choice(ws), rng.choice(c1), (rng.choice(c2),)))          # the bridge
+    rules.append((rng.choice(ws), rng.choice(c2), (rng.choice(V),)))
+    if rng.random() < 0.5:
+        rules.append((rng.choice(ws), rng.choice(c1), (rng.choice(V), rng.choice(c1 + c2))))
+    if "S" not in c1 + c2:
+        rules.append((rng.choice(ws), "S", (rng.choice(c1),) + ((rng.choice(V),) if rng.random() < 0.5 else ())))
+    rng.shuffle(rules)
+    return rules
+
+
 def rand_cfg(rng, R, **kw):
+    if kw.get("shape") == "twocycles":
+        V = kw.pop("V", ("a", "b"))
+        return build_cfg(R, twocycle_rules(rng, R, V=V), V=V)
     if kw.get("shape") == "ring":
         V = kw.pop("V", ("a", "b"))
         return build_cfg(R, ring_rules(rng, R, V=V), V=V)
